@@ -5,7 +5,7 @@ use anyhow::{anyhow, bail, Context, Result};
 use futures::{future::join_all, stream::FuturesUnordered, SinkExt, StreamExt};
 use log::{error, info};
 use quinn::{Connecting, Connection, Endpoint, IdleTimeout, VarInt};
-use selium_protocol::error_codes::INVALID_TOPIC_NAME;
+use selium_protocol::error_codes::{INVALID_TOPIC_NAME, TOPIC_KIND_MISMATCH};
 use selium_protocol::{error_codes, BiStream, ErrorPayload, Frame, TopicName};
 use selium_std::errors::SeliumError;
 use std::net::SocketAddr;
@@ -198,10 +198,26 @@ async fn handle_stream(
                 stream.send(Frame::Error(payload)).await?;
                 return Ok(());
             }
-            stream.send(Frame::Ok).await?;
         }
 
+        let wants_pubsub = matches!(
+            frame,
+            Frame::RegisterPublisher(_) | Frame::RegisterSubscriber(_)
+        );
         let mut ts = topics.lock().await;
+
+        // A role that does not fit the messaging pattern the topic was created with cannot be
+        // served: refuse it instead of acknowledging it.
+        if ts.get(topic).is_some_and(|t| t.is_pubsub() != wants_pubsub) {
+            drop(ts);
+
+            let payload = ErrorPayload {
+                code: TOPIC_KIND_MISMATCH,
+                message: "Topic is in use with a different messaging pattern".into(),
+            };
+            stream.send(Frame::Error(payload)).await?;
+            return Ok(());
+        }
 
         // Spawn new topic if it doesn't exist yet
         if !ts.contains_key(topic) {
@@ -228,6 +244,9 @@ async fn handle_stream(
         // a topic whose registration queue is full must not block registrations on others.
         let mut tx = ts.get(topic).unwrap().clone();
         drop(ts);
+
+        #[cfg(not(feature = "__cloud"))]
+        stream.send(Frame::Ok).await?;
 
         match frame {
             Frame::RegisterPublisher(_) => {
